@@ -761,6 +761,11 @@ func (fc *FuncCtx) evalCall(env *Env, c ECall) Val {
 	if o := types.Universe.Lookup(id.Name); o != nil && len(c.Args) == 1 {
 		if tn, ok := o.(*types.TypeName); ok {
 			v := arg(0)
+			if isString(tn.Type()) && v.Ty != nil && isByteSlice(v.Ty) {
+				ek := fc.elemComp(v.Ty.Underlying().(*types.Slice).Elem())
+				fc.needBytes2Str()
+				return Val{T: "(bytes2str (select " + fc.get(env.st, ek) + " (s-base " + v.T + ")) (s-off " + v.T + ") (s-len " + v.T + "))", Ty: tn.Type()}
+			}
 			if _, _, isInt := intInfo(tn.Type()); isInt {
 				if v.Ty != nil {
 					return Val{T: convInt(v.T, v.Ty, tn.Type()), Ty: tn.Type()}
@@ -864,6 +869,14 @@ func (fc *FuncCtx) evalMethodCall(env *Env, sel ESel, argsE []Expr) Val {
 		if !bound && env.lets[id.Name] == nil && (env.at == nil || fc.resolveLocal(id.Name, env.at) == nil) && fc.params[id.Name].T == "" {
 			for _, p := range fc.V.Prog.AllPackages() {
 				if p.Pkg.Name() == id.Name {
+					// a pure / ghost function declared in that package's contract namespace
+					if pf, ok := fc.V.CS.Pures[p.Pkg.Path()+"."+sel.Name]; ok {
+						var args []Val
+						for _, a := range argsE {
+							args = append(args, fc.eval(env, a))
+						}
+						return fc.callPure(env, pf, args)
+					}
 					if f, ok := p.Members[sel.Name].(*ssa.Function); ok {
 						var args []Val
 						for _, a := range argsE {
